@@ -96,7 +96,7 @@ def run_virtual(coro, timeout_vs: float | None = None):
 
 
 # --------------------------------------------------------------------------- file writer
-def make_sync_writer_factory():
+def make_sync_writer_factory(on_write=None):
     from apt_mirror.aiofile import BaseAsyncIOFileWriterFactory
 
     class _W:
@@ -104,6 +104,8 @@ def make_sync_writer_factory():
             self._fp = fp
 
         async def write(self, data: bytes) -> int:
+            if on_write is not None:
+                on_write(asyncio.get_running_loop().time(), len(data))
             return self._fp.write(data)
 
     class SyncWriterFactory(BaseAsyncIOFileWriterFactory):
